@@ -68,7 +68,10 @@ def make_cfg(seed, i, control=False):
                 cfg["x0"] = (z + margin * rng.normal(size=n) * 5).tolist()
         cfg["args"].update(rhobeg=float(0.3 * margin), rhoend=float(0.3 * margin * 1e-4), maxfun=int(gen.pick(rng, [12, 20])))
     if fam == "regression":
-        cfg["args"]["npt"] = int(rng.integers(n + 2, 2 * n + 2))
+        cap = (n + 1) * (n + 2) // 2      # largest point count the (deterministic) coordinate initialisation supports
+        cfg["args"]["npt"] = int(rng.integers(n + 2, 2 * n + 2)) if (r() < 0.5 or cap <= n + 2) else int(gen.pick(rng, [cap, cap, int(rng.integers(n + 2, cap + 1))]))
+        cfg["args"]["npt"] = max(n + 1, min(cfg["args"]["npt"], cap))
+        cfg["args"]["maxfun"] = max(cfg["args"]["maxfun"], cfg["args"]["npt"] + 10)
         if r() < 0.5:
             up["regression.num_extra_steps"] = int(rng.integers(1, 3))
     if fam == "regularised":
